@@ -2824,7 +2824,7 @@ def comprehension(ip, e, fr, kind):
 SPEC_FUNCS = {'old', 'forall', 'exists', 'implies', 'iff', 'ite', 'dom', 'union', 'inter', 'diff', 'subset',
               'empty', 'add', 'remove', 'use', 'check', 'assume', 'pow2', 'store', 'lookup', 'has',
               'is_none', 'some', 'slice_', 'concat', 'listof', 'setof', 'card', 'fresh', 'havoc', 'tup',
-              'seq_eq', 'div', 'mod', 'bv', 'apply', 'let', 'take', 'snoc', 'copy', 'drop', 'sub', 'is_err', 'okval'}
+              'seq_eq', 'div', 'mod', 'bv', 'apply', 'let', 'take', 'snoc', 'copy', 'drop', 'sub', 'is_err', 'okval', 'truthy'}
 
 
 def find_old(fr):
@@ -2973,6 +2973,8 @@ def spec_call(ip, e, fr):
         if isinstance(d, VList):
             return VList(z3.Store(d.arr, int_term(k), d.ek.unwrap(v)), d.n, d.ek)
         raise EngineError('store on this value')
+    if name == 'truthy':
+        return KBool.wrap(bt(e.args[0]))
     if name == 'is_err':
         v = ev(e.args[0])
         if isinstance(v, VExc):
@@ -3272,3 +3274,35 @@ def _int_from_bytes(ip, recv, args, kwargs, node, fr):
     r = dec(KBytes.unwrap(b))
     ip.assume(r >= 0)
     return VInt(r)
+
+
+def bisect_impl(ip, args, node, right):
+    '''bisect.bisect_left / bisect_right on a sorted integer list: the partition point.'''
+    a = resolve(ip, args[0])
+    x = resolve(ip, args[1])
+    if not isinstance(a, VList) or (a.ek is not None and a.ek != KInt) or not is_intlike(x):
+        raise EngineError('bisect on this argument')
+    if a.ek is None:
+        return VConst(0)
+    xt = int_term(x)
+    r = z3.Int(ip.fresh_name('bis'))
+    j = z3.Int(ip.fresh_name('j'))
+    ip.assume(z3.And(0 <= r, r <= a.n))
+    if right:
+        ip.assume(z3.ForAll([j], z3.Implies(z3.And(0 <= j, j < r), z3.Select(a.arr, j) <= xt), patterns=[z3.Select(a.arr, j)]))
+        ip.assume(z3.ForAll([j], z3.Implies(z3.And(r <= j, j < a.n), z3.Select(a.arr, j) > xt), patterns=[z3.Select(a.arr, j)]))
+    else:
+        ip.assume(z3.ForAll([j], z3.Implies(z3.And(0 <= j, j < r), z3.Select(a.arr, j) < xt), patterns=[z3.Select(a.arr, j)]))
+        ip.assume(z3.ForAll([j], z3.Implies(z3.And(r <= j, j < a.n), z3.Select(a.arr, j) >= xt), patterns=[z3.Select(a.arr, j)]))
+    ip.assumed.add('T-BISECT: bisect on a sorted list returns the partition point (the list is sorted: caller invariant)')
+    return VInt(r)
+
+
+@builtin('bisect_right')
+def _bisect_right(ip, args, kwargs, node, fr):
+    return bisect_impl(ip, args, node, True)
+
+
+@builtin('bisect_left')
+def _bisect_left(ip, args, kwargs, node, fr):
+    return bisect_impl(ip, args, node, False)
